@@ -2,54 +2,153 @@ package main
 
 import (
 	"fmt"
+	"sort"
 	"strings"
 )
 
 // concretizeBlobs turns the model's abstract Blob elements into concrete byte
-// strings: images of Strings keep their string; others get a string with the
-// model's length, first and last byte and a filler that keeps distinct
-// abstract values distinct.
+// strings for native replay. Images of Strings keep their string; xattr blobs
+// become real JSON objects built from the model's xhas/xget over the
+// universe; values the model treats as JSON become JSON string literals;
+// everything else gets a string with the model's length / first / last byte
+// and a filler that keeps distinct abstract values distinct.
 func (e *Exec) concretizeBlobs(m map[string]string) {
 	var blobs []inputRec
 	for _, in := range e.inputs {
 		if in.T.S.K == KBlob {
+			// columns of absent rows are irrelevant
+			if i := strings.Index(in.Name, ".doc"); i >= 0 {
+				j := strings.Index(in.Name[i+1:], ".")
+				if j >= 0 && m[in.Name[:i+1+j]+".present"] == "b:false" {
+					m[in.Name] = "s:"
+					continue
+				}
+			}
 			blobs = append(blobs, in)
 		}
 	}
 	if len(blobs) == 0 {
 		return
 	}
-	var qs []*Term
-	for _, in := range blobs {
-		x := in.T
-		str := mkOp("sOfB", SStr, x)
-		qs = append(qs, x, mkOp("=", SBool, x, mkOp("bOfS", SBlob, str)), str,
-			mkOp("blen", SInt, x), mkOp("bfirst", SBV(8), x), mkOp("blast", SBV(8), x))
+	type facts struct {
+		abs     string
+		isStr   bool
+		str     string
+		n       int
+		first   byte
+		last    byte
+		isJSON  bool
+		isObj   bool
 	}
-	vals := e.solver.GetValues(qs)
-	byAbs := map[string]string{}
+	factsOf := func(ts []*Term) []facts {
+		var qs []*Term
+		for _, x := range ts {
+			str := mkOp("sOfB", SStr, x)
+			qs = append(qs, x, mkOp("=", SBool, x, mkOp("bOfS", SBlob, str)), str,
+				mkOp("blen", SInt, x), mkOp("bfirst", SBV(8), x), mkOp("blast", SBV(8), x), jsonValid(x), xisObj(x))
+		}
+		vals := e.solver.GetValues(qs)
+		out := make([]facts, len(ts))
+		for i := range ts {
+			v := vals[8*i:]
+			out[i] = facts{abs: strings.TrimSpace(v[0]), isStr: strings.TrimSpace(v[1]) == "true", str: parseSMTString(v[2]),
+				n: int(parseSMTInt(v[3])), first: byte(parseSMTBV(v[4])), last: byte(parseSMTBV(v[5])),
+				isJSON: strings.TrimSpace(v[6]) == "true", isObj: strings.TrimSpace(v[7]) == "true"}
+		}
+		return out
+	}
+	var terms []*Term
+	for _, in := range blobs {
+		terms = append(terms, in.T)
+	}
+	fs := factsOf(terms)
+	assigned := map[string]string{}
 	used := map[string]string{}
-	for i, in := range blobs {
-		abs := strings.TrimSpace(vals[6*i])
-		if c, ok := byAbs[abs]; ok {
-			m[in.Name] = "s:" + c
-			continue
-		}
-		var conc string
-		if strings.TrimSpace(vals[6*i+1]) == "true" {
-			conc = parseSMTString(vals[6*i+2])
-		} else {
-			n := parseSMTInt(vals[6*i+3])
-			first := byte(parseSMTBV(vals[6*i+4]))
-			last := byte(parseSMTBV(vals[6*i+5]))
-			conc = synthBlob(int(n), first, last, len(byAbs), used)
-		}
-		if prev, clash := used[conc]; clash && prev != abs {
-			m["_concretization_failed"] = "b:true"
+	fail := false
+	assign := func(abs, conc string) {
+		if prev, ok := used[conc]; ok && prev != abs {
+			fail = true
 		}
 		used[conc] = abs
-		byAbs[abs] = conc
-		m[in.Name] = "s:" + conc
+		assigned[abs] = conc
+	}
+	leaf := func(f facts) string {
+		if c, ok := assigned[f.abs]; ok {
+			return c
+		}
+		var c string
+		if f.isStr {
+			c = f.str
+		} else {
+			c = fmt.Sprintf("%q", fmt.Sprintf("v%d", len(assigned)))
+		}
+		assign(f.abs, c)
+		return c
+	}
+	U := e.universe()
+	var unames []string
+	if len(U) > 0 {
+		for _, v := range e.solver.GetValues(U) {
+			unames = append(unames, parseSMTString(v))
+		}
+	}
+	// pass 1: string images
+	for _, f := range fs {
+		if _, ok := assigned[f.abs]; !ok && f.isStr {
+			assign(f.abs, f.str)
+		}
+	}
+	// pass 2: xattr objects
+	for i, in := range blobs {
+		f := fs[i]
+		if _, ok := assigned[f.abs]; ok {
+			continue
+		}
+		if in.Kind != "xattrs" {
+			continue
+		}
+		var hq, gq []*Term
+		for _, u := range U {
+			hq = append(hq, xhas(in.T, u))
+			gq = append(gq, xget(in.T, u))
+		}
+		hv := e.solver.GetValues(hq)
+		gf := factsOf(gq)
+		type kv struct{ k, v string }
+		var members []kv
+		for k := range U {
+			if strings.TrimSpace(hv[k]) == "true" {
+				members = append(members, kv{unames[k], leaf(gf[k])})
+			}
+		}
+		sort.Slice(members, func(a, b int) bool { return members[a].k < members[b].k })
+		var sb strings.Builder
+		sb.WriteByte('{')
+		for j, mbr := range members {
+			if j > 0 {
+				sb.WriteByte(',')
+			}
+			fmt.Fprintf(&sb, "%q:%s", mbr.k, mbr.v)
+		}
+		sb.WriteByte('}')
+		assign(f.abs, sb.String())
+	}
+	// pass 3: JSON-valued and opaque blobs
+	for _, f := range fs {
+		if _, ok := assigned[f.abs]; ok {
+			continue
+		}
+		if f.isJSON {
+			leaf(f)
+			continue
+		}
+		assign(f.abs, synthBlob(f.n, f.first, f.last, len(assigned), used))
+	}
+	for i, in := range blobs {
+		m[in.Name] = "s:" + assigned[fs[i].abs]
+	}
+	if fail {
+		m["_concretization_failed"] = "b:true"
 	}
 }
 
@@ -57,8 +156,8 @@ func synthBlob(n int, first, last byte, id int, used map[string]string) string {
 	if n <= 0 {
 		n = 1
 	}
-	if n > 64*1024*1024 {
-		n = 64 * 1024 * 1024
+	if n > 48*1024*1024 {
+		n = 48 * 1024 * 1024
 	}
 	b := make([]byte, n)
 	for i := range b {
@@ -66,31 +165,22 @@ func synthBlob(n int, first, last byte, id int, used map[string]string) string {
 	}
 	b[0] = first
 	b[n-1] = last
-	if n == 1 && first != last {
-		b[0] = first
-	}
 	tag := fmt.Sprintf("%d", id)
 	if n >= len(tag)+2 {
 		copy(b[1:], tag)
-	} else if n == 1 {
-		// try to stay distinct among single-byte blobs
-		for k := 0; k < 256; k++ {
+		return string(b)
+	}
+	if n == 1 {
+		if first == 0 {
+			b[0] = byte('a' + id%26)
+		}
+		for k := 0; k < 200; k++ {
 			if _, ok := used[string(b)]; !ok {
 				break
 			}
 			b[0] = byte('a' + (id+k)%26)
 		}
-	} else {
-		for k := 0; k < 256; k++ {
-			if _, ok := used[string(b)]; !ok {
-				break
-			}
-			if n > 2 {
-				b[1] = byte('a' + (id+k)%26)
-			} else {
-				break
-			}
-		}
+		return string(b)
 	}
 	return string(b)
 }
